@@ -40,13 +40,18 @@ struct St {
     counts: Vec<usize>,
     rejected: bool,
     depth: u8,
+    /// per-axis hit pattern of the LAST insert (bit k set = coordinate k fell into a bin; 255 = none yet).
+    /// Part of the key as a hedge against hidden state: should an implementation keep something
+    /// from the previous call (a cached bin, a scratch index), states reached by different kinds of
+    /// last insert are not merged, so the leftover is still there when the next insert is explored.
+    last_kind: u8,
     fault: Option<String>,
     /// representative history (action indexes); not part of the state's identity
     history: Vec<u16>,
 }
 impl PartialEq for St {
     fn eq(&self, o: &St) -> bool {
-        self.counts == o.counts && self.rejected == o.rejected && self.depth == o.depth && self.fault == o.fault
+        self.counts == o.counts && self.rejected == o.rejected && self.depth == o.depth && self.last_kind == o.last_kind && self.fault == o.fault
     }
 }
 impl Eq for St {}
@@ -55,6 +60,7 @@ impl Hash for St {
         self.counts.hash(h);
         self.rejected.hash(h);
         self.depth.hash(h);
+        self.last_kind.hash(h);
         self.fault.hash(h);
     }
 }
@@ -176,7 +182,7 @@ impl<A: HE> Model for HistModel<A> {
         } else if counts.iter().any(|&c| c != 0) {
             fault = Some("C11/initial-counts-nonzero|new histogram has non-zero counts".to_string());
         }
-        vec![St { counts, rejected: false, depth: 0, fault, history: vec![] }]
+        vec![St { counts, rejected: false, depth: 0, last_kind: 255, fault, history: vec![] }]
     }
 
     fn actions(&self, s: &St, out: &mut Vec<u16>) {
@@ -274,7 +280,15 @@ impl<A: HE> Model for HistModel<A> {
                 }
             }
         }
-        Some(St { counts: post, rejected, depth: s.depth + 1, fault, history: hist })
+        // per-axis hit pattern of this insert (reference model)
+        let mut kind = 0u8;
+        for (k, &c) in self.points[a as usize].iter().enumerate() {
+            let e = &self.edges[k];
+            if e.len() >= 2 && e[0] <= c && c < e[e.len() - 1] {
+                kind |= 1 << k;
+            }
+        }
+        Some(St { counts: post, rejected, depth: s.depth + 1, last_kind: kind, fault, history: hist })
     }
 
     fn properties(&self) -> Vec<Property<Self>> {
@@ -340,8 +354,8 @@ fn run_grid<A: HE>(c: &GCase, lx: &mut Local) {
 
 fn main() {
     let mut rep = Report::new("C11");
-    rep.rule = "case = (grid = tuple of edge lists, element type); inside: explicit-state BFS over all insertion histories up to the depth bound; states are identified by (counts, reject-seen flag, depth); non-trivial = the grid has at least one bin".into();
-    rep.assume("Histogram has exactly two fields (grid, counts), both observable, so (grid, counts) is an exact canonical form: two histories with equal counts have identical futures; depth is part of the key so that the depth bound cuts the same states on every run");
+    rep.rule = "case = (grid = tuple of edge lists, element type); inside: explicit-state BFS over all insertion histories up to the depth bound; states are identified by (counts, reject-seen flag, depth, per-axis hit pattern of the last insert); non-trivial = the grid has at least one bin".into();
+    rep.assume("Histogram has exactly two fields (grid, counts), both observable, so (grid, counts) is an exact canonical form: two histories with equal counts have identical futures; depth is part of the key so that the depth bound cuts the same states on every run; as a hedge against hidden state the key also carries the per-axis hit pattern of the last insert (a leftover from the previous call is then not merged away)");
     rep.assume("all history-dependent comparisons (reference map, accept/reject verdict, one-cell-changed, bulk differential) are evaluated inside the transition function, before deduplication, and their verdict is stored in a hashed field");
     let depth: u8 = rep.cfg.pick(7, 9);
     let mut cases: Vec<GCase> = Vec::new();
@@ -386,6 +400,79 @@ fn main() {
                 0 => run_grid::<i32>(c, lx),
                 _ => run_grid::<N64>(c, lx),
             }
+        },
+    );
+    // long observation matrices (the matrix form may work in blocks): bulk vs incremental vs reference
+    rep.dispatch_chunk = 4;
+    let rmax = rep.cfg.pick(300, 1100);
+    let mcases = nsmc::patterns::sizes(20, rmax).into_iter().filter(|&r| r >= 1).flat_map(|rows| (0..4u8).flat_map(move |fill| (1..=3usize).map(move |d| (rows, fill, d))));
+    rep.run_sub(
+        "long-matrices",
+        &format!("observation matrices of every row count 1..=20 and block threshold neighbourhoods up to {} x 1..=3 columns x 4 fills (all inside; an out-of-grid row early / around every 64th position / last; out-of-grid on a non-last axis only) in row-major and column-major order: histogram() vs one-by-one add_observation vs the reference map", rmax),
+        mcases,
+        |c, lx| {
+            let (rows, fill, d) = *c;
+            lx.nontrivial(true);
+            lx.single(|lx| {
+                let axes: Vec<usize> = vec![3, 4, 2][..d].to_vec();
+                let model: HistModel<i32> = HistModel::new(&axes, 1);
+                // abstract coordinates per row
+                let pts: Vec<Vec<i32>> = (0..rows)
+                    .map(|r| {
+                        (0..d)
+                            .map(|k| {
+                                let inside = [1, 5, 3, 0, 4, 7][(r * (k + 2) + k) % 6];
+                                let out = match fill {
+                                    0 => false,
+                                    1 => r == 3 % rows && k == 0,
+                                    2 => (r % 64 == 63 || r % 64 == 0) && k == d - 1,
+                                    _ => r % 5 == 2 && k == 0 && d >= 2,
+                                };
+                                if out {
+                                    if r % 2 == 0 {
+                                        -3
+                                    } else {
+                                        99
+                                    }
+                                } else {
+                                    inside
+                                }
+                            })
+                            .collect()
+                    })
+                    .collect();
+                // reference
+                let mut want = vec![0usize; model.shape.iter().product::<usize>().max(1)];
+                for p in &pts {
+                    if let Some(cell) = model.ref_cell(p) {
+                        want[model.flat(&cell)] += 1;
+                    }
+                }
+                if model.shape.iter().any(|&s| s == 0) {
+                    want.clear();
+                }
+                // incremental
+                let mut h = Histogram::new(model.grid());
+                for p in &pts {
+                    let _ = h.add_observation(&Array1::from(p.iter().map(|&c| <i32 as HE>::mk(c)).collect::<Vec<i32>>()));
+                }
+                let inc: Vec<usize> = h.counts().iter().cloned().collect();
+                lx.check(inc == want, "C11/counts-vs-reference", || format!("{} single inserts (fill {}, {} columns): counts {:?}, reference {:?}", rows, fill, d, inc, want));
+                let flat: Vec<i32> = pts.iter().flat_map(|p| p.iter().map(|&c| <i32 as HE>::mk(c)).collect::<Vec<_>>()).collect();
+                let c_order = Array2::from_shape_vec((rows, d), flat).unwrap();
+                let mut f_order = Array2::from_elem((rows, d).f(), 0i32);
+                f_order.assign(&c_order);
+                for (name, m) in [("row-major", &c_order), ("column-major", &f_order)] {
+                    match guarded(|| m.histogram(model.grid())) {
+                        Ok(hb) => {
+                            let bc: Vec<usize> = hb.counts().iter().cloned().collect();
+                            lx.check(bc == want, "C11/bulk-vs-incremental", || format!("histogram() of a {} matrix with {} rows x {} columns (fill {}): counts {:?} (total {}), reference {:?} (total {})", name, rows, d, fill, bc, bc.iter().sum::<usize>(), want, want.iter().sum::<usize>()));
+                        }
+                        Err(msg) => lx.fail("C11/panic", || format!("histogram() panicked on a {} matrix with {} rows: {}", name, rows, msg)),
+                    }
+                }
+                hash_of(&inc)
+            });
         },
     );
     rep.finish();
